@@ -67,6 +67,8 @@ def timing_program(draw, max_routines=6, sends=False, nondyadic=False,
             if k == 5:
                 inner.append([sub + 0.25, ['/nn', tag[0]]])
             elems.append(inner)
+        if draw(st.integers(0, 5)) == 0:
+            return ['bundle', lat, elems, 'twice']
         return ['bundle', lat, elems]
 
     for nm in names:
